@@ -10,4 +10,4 @@ for c in "$@"; do
   ./check $c --tier quick 2>&1 | grep -E "^VIOLATION|^  rule|^KNOWN|^C[0-9]+:|harness error" | cut -c1-260
 done
 git -C /repo checkout -- .
-rm -f /verif/replays/*.json
+find /verif/replays -name "*.json" -delete
